@@ -536,6 +536,12 @@ func (w *tableWorld) hookCallbacks() {
 				slow = w.forceSlowMs
 				w.forceSlowMs = 0
 				w.mon.slowness(slow)
+				if w.chaseWake != nil && (snap.State.GameState == nil || snap.State.Status == pt.TableStateStatus_TableGameSettled) {
+					select {
+					case w.chaseWake <- slow:
+					default:
+					}
+				}
 			} else if w.cfg.slowSub && slow == 0 && w.inFaultWindow() && w.netSt.Chance(1, w.cfg.slowSubOneIn) {
 				c.Fault("F8_slow_subscriber")
 				slow = int64(1 + w.netSt.Draw(3000))
@@ -1430,6 +1436,11 @@ func (w *tableWorld) alignedTask(wake chan struct{}, stream string) {
 			continue
 		}
 		c.Fault("F5_aligned_intervention")
+		if w.focus("C07") && g.slowSub && tgt != base && st.Chance(1, 2) {
+			// the call made at the instant the engine decides / the gate fires meets a slow subscriber: the
+			// engine's own next move queues behind the lock this call keeps (and the chaser may close meanwhile)
+			w.forceSlowMs = int64(400 + st.Draw(2200))
+		}
 		closeW := 10
 		if w.focus("C07") {
 			closeW = 45
